@@ -1,6 +1,8 @@
 import MJ.Proofs.LexerLine
 import MJ.Proofs.LexerAC
 import MJ.Proofs.LexerKern
+import MJ.Proofs.LexerPieces
+import MJ.Proofs.LexerRules
 import MJ.Gen.Tables
 /-!
 # C10 — text is verbatim and whitespace control exact under any delimiter configuration
@@ -229,6 +231,44 @@ example :
     delimFree defaultDelims ⟨['a'], [(⟨.var [.ws [' '], .str '"' "\\u007d}".toList, .ws [' ']], .none, .minus⟩, [' ', 'b'])]⟩ = true := by
   decide
 
+/-! ## the tokens inside a tag -/
+
+/-- `scanPieces` (the expression-level lexer with the text of every token it emits and every blank
+    it skips) is `scanTag` with bookkeeping: it ends the tag at the same place. -/
+theorem pieces_same_end (e : List Char) (line : Bool) (s : List Char) (m : Mode) (bal : Int) (cur : List Char) :
+    (scanPieces e line m bal s cur).2 = scanTag e line m bal s := scanPieces_snd e line s m bal cur
+
+/-- **The lexer never loses or invents a character inside a tag**: whenever `tokenize_block_or_var`
+    finds the end of an ordinary tag, the texts of the tokens it emitted and of the whitespace it
+    skipped, concatenated in order, followed by the marker, the end delimiter and what is left
+    unread, are exactly the input — for every end delimiter and every input (well-formed or not,
+    any mixture of identifiers, numbers in every notation, string literals with escapes, one and
+    two character operators, brackets). -/
+theorem tokens_concat_verbatim (e s rest : List Char) (ws : Ws)
+    (h : scanTag e false .top 0 s = .found rest ws) :
+    s = piecesSrc (scanPieces e false .top 0 s []).1 ++ (ws.src ++ (e ++ rest)) := by
+  have := scanPieces_concat e s .top 0 [] rest ws (by rw [scanPieces_snd]; exact h)
+  simpa using this
+
+/-- `{{ a.b //2 -}}x`: tokens `a`, `.`, `b`, `//`, `2` and three blanks; `0x1f**'}}'` -/
+example :
+    (scanPieces ['}', '}'] false .top 0 " a.b //2 -}}x".toList []).1 =
+      [.blank [' '], .tok ['a'], .tok ['.'], .tok ['b'], .blank [' '], .tok ['/', '/'], .tok ['2'], .blank [' ']] ∧
+    (scanPieces ['}', '}'] false .top 0 "0x1f**'}}'}}".toList []) =
+      ([.tok "0x1f".toList, .tok ['*', '*'], .tok "'}}'".toList], .found [] .dflt) := by decide
+
+/-- … and for a tag that reads back as written the pieces are a partition of its interior: their
+    concatenation is the interior as written (`srcs ts`), nothing of the marker, the end delimiter
+    or the text behind the tag is part of a token. -/
+theorem interior_is_partitioned (e : List Char) (ts : List Tok) (m : Mark) (x : List Char)
+    (he : headOk e = true) (h : interiorOk e 0 ts (m.src ++ (e ++ x)) = true) (hc : closeOk e m x = true) :
+    piecesSrc (scanPieces e false .top 0 (srcs ts ++ (m.src ++ (e ++ x))) []).1 = srcs ts := by
+  have hend := interior_end_found e ts m x he h hc
+  have := tokens_concat_verbatim e _ x m.ws hend
+  have hm : m.ws.src = m.src := by cases m <;> rfl
+  rw [hm] at this
+  exact (List.append_cancel_right this).symm
+
 /-- A line statement ends at the end of its line: behind a well-formed interior (brackets closed;
     at depth 0 blanks contain no line break and are followed by another token) the blanks up to the
     line break and the line break itself (`\n`, `\r\n`, `\r`) or the end of the input are
@@ -424,6 +464,45 @@ theorem lookalike_is_text (cfg : Cfg) (vm bm : List Char) (d : Delims) (t : List
 example : noStartIn erb ['a', '{', '{', ' ', 'x', ' ', '}', '}', '{', '%', ' ', 'y', ' ', '%', '}'] [] = true ∧
     findStartDefault ['a', '{', '{', ' ', 'x', ' ', '}', '}', '{', '%', ' ', 'y', ' ', '%', '}'] ≠ none := by
   decide
+
+/-! ## the rules remove only the whitespace they name -/
+
+/-- Every text of a template is partitioned into what the tag on its left removes, what is printed
+    and what the tag on its right removes (`specTail` prints `cut l r t`); when the two removed
+    parts meet, nothing is printed. -/
+theorem text_is_partitioned (l r : Nat) (t : List Char) :
+    (l + r ≤ t.length → t = t.take l ++ (cut l r t ++ t.drop (t.length - r))) ∧
+    (t.length ≤ l + r → cut l r t = []) :=
+  ⟨cut_partition l r t, cut_nil_of_overlap l r t⟩
+
+/-- The characters removed at the start of a text are the ones the statement names: all leading
+    whitespace behind `-`; exactly one line break (`\n`, `\r\n` or `\r`) behind an unmarked block /
+    comment / raw tag under `trim_blocks`; nothing behind `+`, behind a variable tag, or with
+    `trim_blocks` off.  In every case only whitespace. -/
+theorem removed_left_is_named (cfg : Cfg) (blockish : Bool) (m : Mark) (t : List Char) :
+    (m = .minus → t.take (leftCut cfg blockish m t) = t.takeWhile isWs) ∧
+    (m = .none → blockish = true → cfg.trim = true → t.take (leftCut cfg blockish m t) = t.take (nlLen t)) ∧
+    (m = .plus ∨ (m = .none ∧ (blockish = false ∨ cfg.trim = false)) → leftCut cfg blockish m t = 0) ∧
+    (∀ c ∈ t.take (leftCut cfg blockish m t), isWs c = true) := leftCut_named cfg blockish m t
+
+/-- The characters removed at the end of a text: all trailing whitespace in front of `-`; only
+    horizontal whitespace in front of an unmarked tag, and only for a block / comment / raw tag
+    under `lstrip_blocks` whose line holds nothing else in front of it; nothing in front of `+`. -/
+theorem removed_right_is_named (cfg : Cfg) (first blockish : Bool) (m : Mark) (t : List Char) :
+    (m = .minus → ∀ c ∈ t.drop (t.length - rightCut cfg first blockish m t), isWs c = true) ∧
+    (m = .none → ∀ c ∈ t.drop (t.length - rightCut cfg first blockish m t), isHws c = true) ∧
+    (m = .plus ∨ (m = .none ∧ (blockish = false ∨ cfg.lstrip = false ∨ atLineStart first t = false)) →
+      rightCut cfg first blockish m t = 0) := rightCut_named cfg first blockish m t
+
+/-- `x \r\n` behind `%}` under trim_blocks loses 0 characters (it does not start with the line
+    break), `\r\nx` loses 2; `a\n \t` in front of `{%` under lstrip_blocks loses the 2 blanks, `a \t`
+    none -/
+example :
+    leftCut ⟨true, false, false⟩ true .none ['x', ' ', '\r', '\n'] = 0 ∧
+    leftCut ⟨true, false, false⟩ true .none ['\r', '\n', 'x'] = 2 ∧
+    rightCut ⟨false, true, false⟩ false true .none ['a', '\n', ' ', '\t'] = 2 ∧
+    rightCut ⟨false, true, false⟩ false true .none ['a', ' ', '\t'] = 0 ∧
+    rightCut ⟨false, true, false⟩ false true .plus ['a', '\n', ' ', '\t'] = 0 := by decide
 
 /-! ## the Aho-Corasick automaton as an assumption with a name -/
 
